@@ -252,7 +252,7 @@ def run(tier):
     runner = ddp.Runner()
     per = 50
     groups = [cs[i:i + per] for i in range(0, len(cs), per)]
-    opts = (1,) if tier == "quick" else (0, 1, 2)
+    opts = (1, 2) if tier == "quick" else (0, 1, 2)
 
     def one(g):
         src = PRELUDE + "\n" + "\n".join("\n".join(render_call(k, c)) for k, c in enumerate(g)) + "\n"
